@@ -168,10 +168,50 @@ func genRealBlocks(g *h.G) {
 				g.Count("real_block_part_go_decode_err:" + part.Type)
 			}
 			g.Emit("tlb.dec", tt.Name, tt.Ty, tt.Env, tbl)
+			for _, m := range flagVariants(part.Type, c) {
+				g.Emit("tlb.dec", tt.Name, tt.Ty, tt.Env, tlbx.CellText(m))
+				g.Count("real_block_part_flag_variants:" + part.Type)
+			}
 			g.Count("real_block_part_compared_with_model:" + part.Type)
 			g.NonTrivial("realblock/" + part.Type + "/" + tbl[:minInt(len(tbl), 64)])
 		}
 	}
+}
+
+// flagVariants: the real cell with each of the bits that steer the flag-dependent layout flipped (BlockInfo:
+// not_master … vert_seqno_incr and the 8 flags bits; ValueFlow: the other version's magic), and with the last
+// reference dropped — every branch of the hand-written decoders, most of them ending in an error.
+func flagVariants(typ string, c *boc.Cell) []*boc.Cell {
+	row := h.RowOf(c)
+	refs := c.Refs()
+	var out []*boc.Cell
+	mk := func(data []byte, rs []*boc.Cell) {
+		out = append(out, boc.VerifNewCell(boc.OrdinaryCell, 0, data, row.BitLen, rs))
+	}
+	switch typ {
+	case "tlb.BlockInfo":
+		for i := 64; i < 80 && i < row.BitLen; i++ {
+			d := append([]byte{}, row.Data...)
+			d[i/8] ^= 1 << uint(7-i%8)
+			mk(d, refs)
+		}
+	case "tlb.ValueFlow":
+		if row.BitLen >= 32 {
+			d := append([]byte{}, row.Data...)
+			other := []byte{0x3e, 0xbf, 0x98, 0xb7}
+			if d[0] == 0x3e {
+				other = []byte{0xb8, 0xe4, 0x8d, 0xfb}
+			}
+			copy(d, other)
+			mk(d, refs)
+		}
+	default:
+		return nil
+	}
+	if len(refs) > 0 {
+		mk(append([]byte{}, row.Data...), refs[:len(refs)-1])
+	}
+	return out
 }
 
 var realTypes = map[string]string{"tx": "tlb.Transaction", "msg": "tlb.Message", "stateinit": "tlb.StateInit"}
